@@ -18,16 +18,17 @@ Goal forall (uc : unicode) (cfg : sw_config) (items : list ritem) (s : sw_state)
 Proof. exact Props.C12.C12_swift_flag_any_state. Qed.
 Print Assumptions Props.C12.C12_swift_flag_any_state.
 Goal forall (uc : unicode) (cfg : sc_config) (pd : parsed) (uses defs : list str),
-    c12_sc_observe uc cfg pd = Ok (uses, defs) -> c12_sc_dom pd = true -> c12_sc_known cfg pd = None ->
+    c12_sc_observe uc cfg pd = Ok (uses, defs) -> c12_sc_dom pd = true ->
     c12_good uses defs = true.
 Proof. exact Props.C12.C12_scala. Qed.
 Print Assumptions Props.C12.C12_scala.
-Goal c12_sc_known Proofs.C12_Scala.c12_sc_cfg0 Proofs.C12_Scala.c12_sc_witness = Some "C12-scala-unsigned-depth"%string /\
-  c12_sc_dom Proofs.C12_Scala.c12_sc_witness = true /\
-  c12_sc_observe uc_exec Proofs.C12_Scala.c12_sc_cfg0 Proofs.C12_Scala.c12_sc_witness = Ok ([lit "UShort"], []) /\
-  c12_good [lit "UShort"] [] = false.
-Proof. exact Props.C12.C12_scala_unsigned_depth_refuted. Qed.
-Print Assumptions Props.C12.C12_scala_unsigned_depth_refuted.
+Goal c12_sc_dom Proofs.C12_Scala.c12_sc_witness = true /\
+  c12_sc_scan Proofs.C12_Scala.c12_sc_witness = true /\
+  c12_sc_observe uc_exec Proofs.C12_Scala.c12_sc_cfg0 Proofs.C12_Scala.c12_sc_witness =
+    Ok ([lit "UShort"], [lit "UByte"; lit "UShort"; lit "UInt"; lit "ULong"]) /\
+  c12_good [lit "UShort"] [lit "UByte"; lit "UShort"; lit "UInt"; lit "ULong"] = true.
+Proof. exact Props.C12.C12_scala_unsigned_depth_fixed. Qed.
+Print Assumptions Props.C12.C12_scala_unsigned_depth_fixed.
 Goal forall (uc : unicode) (cfg : go_config) (pd : parsed) (uses defs : list str),
     c12_go_observe uc cfg pd = Ok (uses, defs) -> c12_go_dom cfg (items_of pd) = true ->
     c12_good uses defs = true.
